@@ -24,6 +24,9 @@ import (
 	"github.com/uber/kraken/core"
 	"github.com/uber/kraken/lib/backend"
 	"github.com/uber/kraken/lib/blobrefresh"
+	"github.com/uber/kraken/lib/hashring"
+	"github.com/uber/kraken/lib/healthcheck"
+	"github.com/uber/kraken/lib/hostlist"
 	"github.com/uber/kraken/lib/metainfogen"
 	"github.com/uber/kraken/lib/store"
 	mockpersistedretry "github.com/uber/kraken/mocks/lib/persistedretry"
@@ -37,8 +40,12 @@ import (
 // CAStore on disk) under an HTTP listener; internal upload endpoints PATCH / PUT …/uploads/{uid}
 // with the uid segment taken verbatim from the op record (or `@k` = the uid the server issued for
 // upload k).  After each request the tree outside the store's upload/cache directories is compared.
-//   origin op start <k> => ok
-//   origin op patch|commit <raw segment | @k> <k> => <class> <changes outside | ->
+//   origin op start|pstart <k> => ok                        (internal / public route)
+//   origin op patch|commit|ppatch|pcommit|dcommit <raw segment | @k> <k> => <class> <every changed path | ->
+// Routes: /internal/blobs/{d}/uploads/{uid} (PATCH, PUT), /namespace/{ns}/blobs/{d}/uploads/{uid} (PATCH, PUT),
+// /internal/duplicate/namespace/{ns}/blobs/{d}/uploads/{uid} (PUT).  The snapshot covers the whole test root
+// (store directories included); issued upload ids are written @k and the cache entry of blob k #k.  `data`
+// sentinels sit at <root>, <store>, <upload> and <cache>.
 
 type c11OEnv struct {
 	root, storeDir, upload, cache string
@@ -55,9 +62,7 @@ func c11OSnapshot(e *c11OEnv) map[string]string {
 			return nil
 		}
 		rel, _ := filepath.Rel(e.root, p)
-		if strings.HasPrefix(p, e.upload+"/") || strings.HasPrefix(p, e.cache+"/") {
-			return nil
-		}
+		rel = e.symbolic(rel)
 		if info.IsDir() {
 			snap[rel] = "d"
 			return nil
@@ -67,6 +72,27 @@ func c11OSnapshot(e *c11OEnv) map[string]string {
 		return nil
 	})
 	return snap
+}
+
+// symbolic rewrites the parts of a path that depend on random values: issued upload ids become @k, the
+// cache entry (and shard directories) of blob k become #k.
+func (e *c11OEnv) symbolic(rel string) string {
+	for k, uid := range e.uids {
+		if uid != "" {
+			rel = strings.ReplaceAll(rel, uid, "@"+k)
+		}
+	}
+	for i, b := range e.blobs {
+		h := b.Digest.Hex()
+		full := filepath.Join("store/cache", h[0:2], h[2:4], h)
+		switch {
+		case strings.HasPrefix(rel, full):
+			rel = fmt.Sprintf("store/cache/#%d", i) + rel[len(full):]
+		case rel == filepath.Join("store/cache", h[0:2], h[2:4]), rel == filepath.Join("store/cache", h[0:2]):
+			rel = "store/cache/#shard" // a shard directory of the CAS layout (may be shared between blobs)
+		}
+	}
+	return rel
 }
 
 func c11ODiff(a, b map[string]string) string {
@@ -84,8 +110,8 @@ func c11ODiff(a, b map[string]string) string {
 		}
 	}
 	sort.Strings(out)
-	if len(out) > 6 {
-		out = append(out[:6], "more")
+	if len(out) > 14 {
+		out = append(out[:14], "+more")
 	}
 	for i := range out {
 		out[i] = verifh.Str(out[i])
@@ -109,10 +135,6 @@ func c11ONewEnv(t *testing.T) *c11OEnv {
 	for i := 0; i < 3; i++ {
 		e.blobs = append(e.blobs, core.SizedBlobFixture(64, 16))
 	}
-	os.WriteFile(filepath.Join(root, "outer-sentinel"), []byte("outer"), 0644)
-	os.WriteFile(filepath.Join(e.storeDir, "sentinel"), []byte("inner"), 0644)
-	// a file that an upload named ".." would alias: <store>/data (holds blob 0, so that even a commit verifies)
-	os.WriteFile(filepath.Join(e.storeDir, "data"), e.blobs[0].Content, 0644)
 	e.stop = append(e.stop, func() { os.RemoveAll(root) })
 
 	ctrl := gomock.NewController(t)
@@ -121,6 +143,13 @@ func c11ONewEnv(t *testing.T) *c11OEnv {
 		panic(err)
 	}
 	e.stop = append(e.stop, cas.Close)
+	os.WriteFile(filepath.Join(root, "outer-sentinel"), []byte("outer"), 0644)
+	os.WriteFile(filepath.Join(e.storeDir, "sentinel"), []byte("inner"), 0644)
+	// files that a mis-resolved upload id would alias, at every level (each holds blob 0, so that even a
+	// commit of it would verify)
+	for _, d := range []string{root, e.storeDir, e.upload, e.cache} {
+		os.WriteFile(filepath.Join(d, "data"), e.blobs[0].Content, 0644)
+	}
 	bm := backend.ManagerFixture()
 	wb := mockpersistedretry.NewMockManager(ctrl)
 	wb.EXPECT().Add(gomock.Any()).Return(nil).AnyTimes()
@@ -129,7 +158,8 @@ func c11ONewEnv(t *testing.T) *c11OEnv {
 	clk := clock.NewMock()
 	clk.Set(time.Now())
 	cp := newTestClientProvider()
-	s, err := New(Config{}, tally.NoopScope, clk, "origin1", hashRingMaxReplica(), cas, cp,
+	ring := hashring.New(hashring.Config{MaxReplica: 3}, hostlist.Fixture("origin1:80"), healthcheck.IdentityFilter{}, tally.NoopScope)
+	s, err := New(Config{}, tally.NoopScope, clk, "origin1:80", ring, cas, cp,
 		mockblobclient.NewMockClusterProvider(ctrl), core.PeerContextFixture(), bm, br, mg, wb)
 	if err != nil {
 		panic(err)
@@ -196,14 +226,18 @@ func c11OriginExec(t *testing.T, tr *verifh.T, c verifh.Case) {
 			continue
 		}
 		switch {
-		case op[1] == "start" && len(op) == 3:
+		case (op[1] == "start" || op[1] == "pstart") && len(op) == 3:
 			b := blob(op[2])
-			cls, h := c11ODo("POST", e.addr, "/internal/blobs/"+b.Digest.String()+"/uploads", nil, nil)
+			route := "/internal/blobs/"
+			if op[1] == "pstart" {
+				route = "/namespace/ns/blobs/"
+			}
+			cls, h := c11ODo("POST", e.addr, route+b.Digest.String()+"/uploads", nil, nil)
 			if cls == "ok" {
 				e.uids[op[2]] = h.Get("Location")
 			}
 			tr.Op(op[1:], cls)
-		case (op[1] == "patch" || op[1] == "commit") && len(op) == 4:
+		case (op[1] == "patch" || op[1] == "commit" || op[1] == "ppatch" || op[1] == "pcommit" || op[1] == "dcommit") && len(op) == 4:
 			seg, err := verifh.Unstr(op[2])
 			if err != nil || seg == "" {
 				continue
@@ -220,11 +254,20 @@ func c11OriginExec(t *testing.T, tr *verifh.T, c verifh.Case) {
 			b := blob(op[3])
 			before := c11OSnapshot(e)
 			path := "/internal/blobs/" + b.Digest.String() + "/uploads/" + seg
+			switch op[1] {
+			case "ppatch", "pcommit":
+				path = "/namespace/ns/blobs/" + b.Digest.String() + "/uploads/" + seg
+			case "dcommit":
+				path = "/internal/duplicate/namespace/ns/blobs/" + b.Digest.String() + "/uploads/" + seg
+			}
 			var cls string
-			if op[1] == "patch" {
+			switch op[1] {
+			case "patch", "ppatch":
 				cls, _ = c11ODo("PATCH", e.addr, path,
 					map[string]string{"Content-Range": fmt.Sprintf("0-%d", len(b.Content))}, b.Content)
-			} else {
+			case "dcommit":
+				cls, _ = c11ODo("PUT", e.addr, path, nil, []byte(`{"delay":0}`))
+			default:
 				cls, _ = c11ODo("PUT", e.addr, path, nil, nil)
 			}
 			tr.Op(op[1:], cls, c11ODiff(before, c11OSnapshot(e)))
@@ -250,19 +293,30 @@ func TestVerif_C11Origin(t *testing.T) {
 	op := func(xs ...string) []string { return append([]string{"op"}, xs...) }
 	// (a) every piece and every pair of pieces as upload id, patch then commit, next to a legitimate upload
 	var segs []string
+	lead := map[string]bool{".": true, "..": true, "%2e": true, "%2F": true, "%25": true, "%252e": true, "a": true, "%": true}
 	for _, a := range c11OPieces {
 		segs = append(segs, a)
+		if !lead[a] && !verifh.Thorough() {
+			continue
+		}
 		for _, b := range c11OPieces {
 			segs = append(segs, a+b)
 		}
 	}
 	segs = append(segs, "..%2Fx", "..%2F..%2Fx", "a%2F..%2F..%2Fx", "%2E%2E%2Fdata", "..%2Fcache%2Fx",
 		"%252e%252e%252Fdata", "a%2F.%2Fb", "%2Fetc%2Fx", "a%2F")
-	for _, sg := range segs {
-		c11OriginExec(t, tr, verifh.Case{Ops: [][]string{op("patch", verifh.Str(sg), "0"), op("commit", verifh.Str(sg), "0")}})
-		c11OriginExec(t, tr, verifh.Case{Ops: [][]string{op("start", "1"), op("commit", verifh.Str(sg), "0"),
-			op("patch", "@1", "1"), op("commit", "@1", "1"), op("commit", "@1", "1")}})
+	for i, sg := range segs {
+		g := verifh.Str(sg)
+		c11OriginExec(t, tr, verifh.Case{Ops: [][]string{op("patch", g, "0"), op("commit", g, "0")}})
+		c11OriginExec(t, tr, verifh.Case{Ops: [][]string{op("pstart", "1"), op("pcommit", g, "0"),
+			op("ppatch", "@1", "1"), op("pcommit", "@1", "1"), op("ppatch", g, "1")}})
 		tr.Count("exhaustive_pairs_cases", 2)
+		if i%3 == 0 || len(sg) > 6 {
+			c11OriginExec(t, tr, verifh.Case{Ops: [][]string{op("ppatch", g, "0"), op("dcommit", g, "0")}})
+			c11OriginExec(t, tr, verifh.Case{Ops: [][]string{op("start", "1"), op("commit", g, "0"),
+				op("patch", "@1", "1"), op("commit", "@1", "1"), op("commit", "@1", "1")}})
+			tr.Count("exhaustive_pairs_cases", 2)
+		}
 	}
 	// (b) random interleavings of legitimate uploads and hostile ids
 	r := verifh.NewRand(verifh.Seed(), "c11origin")
@@ -274,15 +328,15 @@ func TestVerif_C11Origin(t *testing.T) {
 			switch x := r.Intn(10); {
 			case x < 2 && !started[k]:
 				started[k] = true
-				c.Ops = append(c.Ops, op("start", k))
+				c.Ops = append(c.Ops, op(r.Pick("start", "pstart"), k))
 			case x < 5 && started[k]:
-				c.Ops = append(c.Ops, op(r.Pick("patch", "commit"), "@"+k, k))
+				c.Ops = append(c.Ops, op(r.Pick("patch", "commit", "ppatch", "pcommit", "dcommit"), "@"+k, k))
 			default:
 				s := ""
 				for n := 1 + r.Intn(3); n > 0; n-- {
 					s += c11OPieces[r.Intn(len(c11OPieces))]
 				}
-				c.Ops = append(c.Ops, op(r.Pick("patch", "commit"), verifh.Str(s), k))
+				c.Ops = append(c.Ops, op(r.Pick("patch", "commit", "ppatch", "pcommit", "dcommit"), verifh.Str(s), k))
 			}
 		}
 		c11OriginExec(t, tr, c)
